@@ -1,6 +1,16 @@
+\* model checking and case generation in one run
 CONSTANTS
   Dev = {}
   MaxLen = 6
 SPECIFICATION Spec
+INVARIANT ParensNonNeg
+INVARIANT WriteNeverPassesRead
+INVARIANT EofInsideQuoteIsError
+INVARIANT IdealNeverPanics
+INVARIANT OutcomeWellFormed
+INVARIANT DevOnlyAtGuards
+PROPERTY PosMonotone
+PROPERTY ErrSticky
+PROPERTY OutputPrefix
 INVARIANT Emit
 CHECK_DEADLOCK FALSE
